@@ -5,10 +5,10 @@
 ID="$1"; NAME="$2"; shift 2
 D=/verif/seeded/$NAME
 mkdir -p "$D"
-cp /tmp/wt-$ID/_mutant/patch.diff /tmp/wt-$ID/_mutant/demo.rs /tmp/wt-$ID/_mutant/meta.json "$D/" || exit 2
+cp ${WTP:-/tmp/wt-}$ID/_mutant/patch.diff ${WTP:-/tmp/wt-}$ID/_mutant/demo.rs ${WTP:-/tmp/wt-}$ID/_mutant/meta.json "$D/" || exit 2
 {
   echo "### seed_verify"; /verif/tools/seed_verify.sh "$D" 2>&1 | tail -12
   echo "### seed_run $*"; /verif/tools/seed_run.sh "$D" "$@" 2>&1
 } | tee "$D/run.log"
-git -C /repo worktree remove --force /tmp/wt-$ID 2>/dev/null
+git -C /repo worktree remove --force ${WTP:-/tmp/wt-}$ID 2>/dev/null
 git -C /repo status --short | grep -v Cargo.lock
